@@ -275,6 +275,20 @@ def flatten_expr(expr):
     return sym.Sum(as_tuple(done))
 
 
+def _float_literal_kinds(children):
+    """
+    The distinct kinds of all :any:`FloatLiteral` among :data:`children`,
+    looking through minus prefixes (`None` stands for the default kind).
+    """
+    kinds = []
+    for child in children:
+        while is_minus_prefix(child):
+            child = strip_minus_prefix(child)
+        if isinstance(child, sym.FloatLiteral) and child.kind not in kinds:
+            kinds.append(child.kind)
+    return kinds
+
+
 def sum_literals(expr, int_arithmetic=True, fp_arithmetic=False):
     """
     Sum up the values of all numeric literals in the sum and return the reduced sum.
@@ -302,6 +316,13 @@ def sum_literals(expr, int_arithmetic=True, fp_arithmetic=False):
     if not isinstance(expr, sym.Sum):
         return expr
 
+    # The folded literal is of the kind of its operands; literals of
+    # different kinds are left alone
+    kinds = _float_literal_kinds(expr.children)
+    if len(kinds) > 1:
+        fp_arithmetic = False
+    kind = kinds[0] if kinds else None
+
     transformed_components = list(zip(*[_process(child) for child in expr.children]))
     value = sum(transformed_components[0])
     has_float = any(transformed_components[1])
@@ -309,10 +330,10 @@ def sum_literals(expr, int_arithmetic=True, fp_arithmetic=False):
         return expr
     remaining_components = [ch for ch in transformed_components[2] if ch is not None]
     if value != 0:
-        remaining_components = [sym.Literal(value)] + remaining_components
+        remaining_components = [sym.Literal(value, kind=kind if has_float else None)] + remaining_components
 
     if not remaining_components:
-        return sym.Literal(0.0) if has_float else sym.IntLiteral(0)
+        return sym.Literal(0.0, kind=kind) if has_float else sym.IntLiteral(0)
     if len(remaining_components) == 1:
         return remaining_components[0]
     return sym.Sum(as_tuple(remaining_components))
@@ -390,16 +411,26 @@ def mul_literals(expr, int_arithmetic=True, fp_arithmetic=False):
     if not isinstance(expr, sym.Product):
         return expr
 
+    # The folded literal is of the kind of its operands; literals of
+    # different kinds are left alone
+    factors = expr
+    while is_minus_prefix(factors):
+        factors = strip_minus_prefix(factors)
+    kinds = _float_literal_kinds(factors.children if isinstance(factors, sym.Product) else (factors,))
+    if len(kinds) > 1:
+        fp_arithmetic = False
+    kind = kinds[0] if kinds else None
+
     value, has_float, remaining_components = separate_coefficients(
         expr, int_arithmetic=int_arithmetic, fp_arithmetic=fp_arithmetic
     )
     if value == 0:
-        return sym.Literal(value)
+        return sym.Literal(value, kind=kind if has_float else None)
     if abs(value) != 1:
-        remaining_components = [sym.Literal(abs(value))] + remaining_components
+        remaining_components = [sym.Literal(abs(value), kind=kind if has_float else None)] + remaining_components
 
     if not remaining_components:
-        ret = sym.Literal(1.0) if has_float else sym.IntLiteral(1)
+        ret = sym.Literal(1.0, kind=kind) if has_float else sym.IntLiteral(1)
     elif len(remaining_components) == 1:
         ret = remaining_components[0]
     else:
@@ -436,7 +467,10 @@ def div_literals(expr, fp_arithmetic=False):
         literal_types = (sym.IntLiteral, sym.FloatLiteral)
         if not fp_arithmetic or not all(isinstance(e, literal_types) for e in (expr.numerator, expr.denominator)):
             return expr
-        return sym.Literal(float(expr.numerator.value) / float(expr.denominator.value))
+        kinds = _float_literal_kinds((expr.numerator, expr.denominator))
+        if len(kinds) > 1:
+            return expr
+        return sym.Literal(float(expr.numerator.value) / float(expr.denominator.value), kind=kinds[0])
 
     if not isinstance(expr.denominator, sym.IntLiteral):
         return expr
